@@ -27,7 +27,7 @@ def main():
         head = sh(["git", "-C", "/repo", "rev-parse", "--short", "HEAD"])[1].strip()
         env = {"PYTHONPATH": wt, "PYTHONHASHSEED": "0"}
         demo_src = open(f"{sd}/demo.py").read()
-        demo_txt = re.sub(r"/tmp/(?:wt2?|vs)/[A-Za-z0-9_-]+", wt, demo_src)
+        demo_txt = re.sub(r"/tmp/(?:wt[0-9]*|vs)/[A-Za-z0-9_-]+", wt, demo_src)
         os.makedirs(f"{wt}/seed_out/x", exist_ok=True)
         vdemo = f"{wt}/seed_out/x/demo.py"
         open(vdemo, "w").write(demo_txt)
